@@ -13,6 +13,7 @@ macro_rules! dispatch {
             "C06" => $f(&props::c06::C06 $(, $arg)*),
             "C07" => $f(&props::c07::C07 $(, $arg)*),
             "C17" => $f(&props::c17::C17 $(, $arg)*),
+            "C18" => $f(&props::c18::C18 $(, $arg)*),
             "C20" => $f(&props::c20::C20 $(, $arg)*),
             "C13" => $f(&props::c13::C13 $(, $arg)*),
             "C12" => $f(&props::c12::C12 $(, $arg)*),
